@@ -32,27 +32,7 @@ impl ReadDir {
     { unimplemented!() }
 }
 
-impl<T> VxIter<T> {
-    #[verifier::external_body]
-    pub fn any<F: FnMut(T) -> bool>(self, f: F) -> (r: bool)
-        requires
-            forall|i: int| 0 <= i < self@.len() ==> f.requires((#[trigger] self@[i],)),
-        ensures
-            r ==> exists|i: int| 0 <= i < self@.len() && f.ensures((#[trigger] self@[i],), true)
-                && (forall|k: int| 0 <= k < i ==> f.ensures((#[trigger] self@[k],), false)),
-            !r ==> forall|i: int| 0 <= i < self@.len() ==> f.ensures((#[trigger] self@[i],), false),
-    { unimplemented!() }
-
-    #[verifier::external_body]
-    pub fn all<F: FnMut(T) -> bool>(self, f: F) -> (r: bool)
-        requires
-            forall|i: int| 0 <= i < self@.len() ==> f.requires((#[trigger] self@[i],)),
-        ensures
-            r ==> forall|i: int| 0 <= i < self@.len() ==> f.ensures((#[trigger] self@[i],), true),
-            !r ==> exists|i: int| 0 <= i < self@.len() && f.ensures((#[trigger] self@[i],), false)
-                && (forall|k: int| 0 <= k < i ==> f.ensures((#[trigger] self@[k],), true)),
-    { unimplemented!() }
-}
+//@include iter_any_env.rs
 
 impl DirEntry {
     pub uninterp spec fn view(&self) -> DirEnt;
